@@ -47,7 +47,8 @@ def main():
             if ok:
                 tgt = os.path.join("/verif/refactors", rid)
                 os.makedirs(tgt, exist_ok=True)
-                rc, diff = sh(["git", "-C", wt, "diff"])
+                sh(["git", "-C", wt, "add", "-A"])
+                rc, diff = sh(["git", "-C", wt, "diff", "--cached"])
                 open(os.path.join(tgt, "patch.diff"), "w").write(diff)
                 if os.path.exists(os.path.join(d, "notes.md")):
                     shutil.copy(os.path.join(d, "notes.md"), os.path.join(tgt, "notes.md"))
